@@ -213,30 +213,71 @@ fn show(v: &[Obs]) -> String {
         .join(" ")
 }
 
-fn first_diff(want: &[Obs], got: &[Obs]) -> String {
-    let i = want.iter().zip(got.iter()).position(|(a, b)| a != b).unwrap_or(want.len().min(got.len()));
-    let what = match (want.get(i), got.get(i)) {
-        (Some(Obs::Tok { v: a, line: la, col: ca, content: xa, value: va }), Some(Obs::Tok { v: b, line: lb, col: cb, content: xb, value: vb })) => {
-            if a != b {
-                "token value"
-            } else if la != lb {
-                "line number"
-            } else if ca != cb {
-                "column"
-            } else if xa != xb {
-                "line text"
-            } else if va != vb {
-                "trace value"
-            } else {
-                "?"
-            }
+/// What the property statement supports (AUDIT.md): token values and their order; for every token the
+/// line number, a column inside the source span the token started at, and the text of that line;
+/// invalid characters reported in place, scanning going on. Not supported and therefore only
+/// recorded: where `EndOfLine` markers are placed, which character of a `^^` sequence (or which of the
+/// trimmed positions, for the end-line character) the column names, whether the line text carries
+/// its trailing blanks, the rendering in `trace.value`, the trace position of an invalid character.
+/// Returns the relaxations that were needed, or the kind of the first real difference.
+fn relaxed_agree(items: &[Item], src: &scan::Source, got: &[Obs]) -> Result<Vec<&'static str>, String> {
+    let mut used: Vec<&'static str> = vec![];
+    let mut note = |s: &'static str, used: &mut Vec<&'static str>| {
+        if !used.contains(&s) {
+            used.push(s)
         }
-        (None, Some(_)) => "number of items (extra item)",
-        (Some(_), None) => "number of items (missing item)",
-        _ => "item kind",
     };
-    // the failure class of vcore is the start of the note: kind of difference first
-    format!("{what} differs (first difference at item {i})")
+    let want: Vec<&Item> = items.iter().filter(|i| !matches!(i, Item::NewLine | Item::End)).collect();
+    let got_t: Vec<&Obs> = got.iter().filter(|o| !matches!(o, Obs::NewLine)).collect();
+    if got.iter().any(|o| matches!(o, Obs::Runaway)) {
+        return Err("number of items (the lexer does not stop)".into());
+    }
+    for (i, (w, g)) in want.iter().zip(got_t.iter()).enumerate() {
+        match (w, g) {
+            (Item::Tok(t), Obs::Tok { v, line, col, content, value }) => {
+                if &t.v != v {
+                    return Err(format!("token value differs (first difference at item {i})"));
+                }
+                if t.line != *line {
+                    return Err(format!("line number differs (first difference at item {i})"));
+                }
+                let raw = src.line_text(t.line);
+                let trimmed = raw.trim_end_matches(' ');
+                let tlen = trimmed.chars().count();
+                // the end-line character stands for everything that was trimmed, line terminator included
+                let hi = if t.col >= tlen { raw.chars().count() } else { t.col };
+                if *col < t.col_first || *col > hi {
+                    return Err(format!("column differs (first difference at item {i})"));
+                }
+                if *col != t.col {
+                    note("column: another character of the token's source span than the last one", &mut used);
+                }
+                if !(raw.starts_with(content.as_str()) && content.starts_with(trimmed)) {
+                    return Err(format!("line text differs (first difference at item {i})"));
+                }
+                if content != raw {
+                    note("line text: without (all of) its trailing blanks", &mut used);
+                }
+                if *value != t.v.text() {
+                    note("trace.value: other rendering than \\name / the character", &mut used);
+                }
+            }
+            (Item::Invalid { c, line, col }, Obs::Invalid { c: gc, line: gl, col: gcol, .. }) => {
+                if c != gc {
+                    return Err(format!("invalid character differs (first difference at item {i})"));
+                }
+                if (line, col) != (gl, gcol) {
+                    note("trace position of an invalid character", &mut used);
+                }
+            }
+            _ => return Err(format!("item kind differs (first difference at item {i})")),
+        }
+    }
+    if want.len() != got_t.len() {
+        return Err(format!("number of items differs ({} expected, {} delivered)", want.len(), got_t.len()));
+    }
+    note("EndOfLine markers placed otherwise than at the start of the next line", &mut used);
+    Ok(used)
 }
 
 /// Precomputed model side of one (source, table, end-line char): both report flags share it.
@@ -334,11 +375,22 @@ fn judge(idx: u64, case: &Case, e: &Expected, acc: &mut Acc) {
     if got == want {
         return;
     }
+    // not identical to the model's own conventions: is everything the statement supports still right?
+    let real = match relaxed_agree(&e.items, &e.src, &got) {
+        Ok(used) => {
+            for u in used {
+                acc.class(&format!("conforming, differs in an unspecified detail: {u}"));
+            }
+            acc.count("conforming_but_not_identical_to_model_conventions");
+            return;
+        }
+        Err(what) => what,
+    };
     if let Some((items0, src0)) = &e.nohex {
         // finding D4: applies = a doubled catcode-7 character followed by two of 0-9a-f was met by the
         // scanner (after earlier reductions, end-line character included); adjusted = model, hex off
         let want0 = expect(items0, src0, case.report);
-        if got == want0 {
+        if got == want0 || relaxed_agree(items0, src0, &got).is_ok() {
             acc.known("D4", idx, || {
                 let mut j = case.json();
                 j["expected_tex"] = json!(show(&want));
@@ -348,7 +400,7 @@ fn judge(idx: u64, case: &Case, e: &Expected, acc: &mut Acc) {
             return;
         }
     }
-    acc.fail(idx, case.json(), show(&want), show(&got), first_diff(&want, &got));
+    acc.fail(idx, case.json(), show(&want), show(&got), real);
 }
 
 // ---------------------------------------------------------------- enumeration
@@ -683,12 +735,14 @@ fn main() {
         ];
         let nv = variants.len() as u64;
         let v = &variants;
-        ctx.family("dynamic", &format!("every string of length <= {len} over {SIGMA_Q:?}; the configuration changes once, after the 1st, 2nd or 3rd call of Lexer::next, between plain/CR and one of {nv} variants (end-line character none/a/^/\\, or one reassigned character), in both directions, both report flags"), nstr * nv * 3 * 2, |i, acc| {
+        ctx.family("dynamic", &format!("every string of length <= {len} over {SIGMA_Q:?}; the configuration changes once, after the 1st, 2nd or 3rd call of Lexer::next, between plain/CR and one of {nv} variants (end-line character none/a/^/\\, or one reassigned character), in both directions, report_end_of_line = false"), nstr * nv * 3 * 2, |i, acc| {
             let d = vcore::digits(i, &[nstr, nv, 3, 2]);
             let src = nth_src(&SIGMA_Q, d[0]);
             let (e2, o2) = v[d[1] as usize].clone();
             let k = d[2] as usize + 1;
-            for report in [true, false] {
+            // only without end-of-line reporting: there one call = one token, as in TeX's get_next; with
+            // reporting the alignment of calls and line loads is a convention of the API (AUDIT.md)
+            for report in [false] {
                 let case = if d[3] == 0 {
                     Case { src: src.clone(), elc: Some('\r'), over: vec![], report, switch: Some((k, e2, o2.clone())) }
                 } else {
